@@ -479,9 +479,14 @@ fn configs(prop: &str, thorough: bool) -> Vec<(Cfg, Option<usize>)> {
                 ("allow[T1:unlimited]", vec![(0, None)]),
                 ("allow[T1:1]", vec![(0, Some(1))]),
             ];
-            let defaults: Vec<(&str, Option<u64>)> = vec![("default-none", None), ("default-2", Some(2))];
+            // a default of 0 is a genuine default (InitMsg as well as MigrateMsg)
+            let defaults: Vec<(&str, Option<u64>)> = vec![("default-none", None), ("default-2", Some(2)), ("default-0", Some(0))];
             for (an, allow) in &inits {
                 for (dn, dflt) in &defaults {
+                    // budget: the initial default is 2 for two of the allow lists and 0 for the third
+                    if (*dn == "default-0") != (*an == "allow[T1:1]") && dflt.is_some() {
+                        continue;
+                    }
                     let mut c = Cfg::base(&format!("C18/{an}/{dn}"));
                     c.props = p.clone();
                     c.channels = 1;
@@ -501,6 +506,8 @@ fn configs(prop: &str, thorough: bool) -> Vec<(Cfg, Option<usize>)> {
                     c.ack_kinds = vec![AckKind::Error];
                     c.timeouts = true;
                     c.max_inflight = 2;
+                    // X, a stranger to governance, is the contract's chain-level (wasm / migration) admin
+                    c.wasm_admin = Some(X);
                     c.gov_actors = vec![G, G2, X];
                     c.allow_tokens = vec![0, 1];
                     // 0 and u64::MAX are genuine limits (not sentinels for "none"); u64::MAX-1 is added in
@@ -550,8 +557,8 @@ fn describe(prop: &str) -> (&'static str, &'static str) {
             "reference per (channel, denom): outstanding = accepted sends - sends whose error-ack/timeout was processed - amounts of incoming packets answered with a success ack, compared with Channel{id}.balances after every step; total_sent never falls; per incoming packet: ibc_packet_receive never returns Err/panics; success ack => receiver's real balance rose by exactly the amount and the channel balance fell by it; error ack => ALL Channel queries, all bank and cw20 balances, Config, Admin, ListAllowed, Allowed and the packets in flight equal the pre-state; per accepted transfer: exactly one committed IbcMsg::SendPacket, by the ics20 contract, on the requested channel, data == {amount (<= 2^64-1), denom (native name | cw20:<token>), receiver, sender = paying user, memo iff requested}, timeout timestamp == block time + (requested | default) seconds, contract holdings rose and payer's balance fell by the amount; migrations leave balances alone and arrive at outstanding == escrow",
         ),
         "C18" => (
-            "initial allow lists [] | [T1:unlimited] | [T1:1] x default gas limit None | 2; Allow{T1|T2, None|0|1|2^64-2|2^64-1} (0 and u64::MAX are genuine limits) and UpdateAdmin{G|G2} by governance G, the later/former governance G2 and a stranger X; Migrate{None|0|3} at every state; cw20 transfers of T1 (by user A) and of T2 (by the governance account G itself, which becomes the former governance after UpdateAdmin), native transfers, and transfers of a BANK coin whose denom is literally \"cw20:<T2>\"; incoming packets redeeming them; error acks and timeouts that trigger refunds",
-            "reference {gov, allow: token -> limit, default} == Admin, Config.gov_contract, Config.default_gas_limit, fully paged ListAllowed, Allowed{T1}, Allowed{T2} after every step; Allow / UpdateAdmin accepted only from the reference governance; admin, allow list and default change in no other step (migrate may set, never unset, the default); a listed token never disappears, its limit never falls, unlimited stays unlimited (checked against the reference and, independently, pre vs. post listing); a cw20 transfer is accepted only if the token is listed or a default exists; every payout / refund sub-message dispatched by the contract carries gas_limit == allow[token] if listed (None if unlimited) else the default, native payouts carry none",
+            "initial allow lists [] | [T1:unlimited] | [T1:1] x default gas limit None | 2; Allow{T1|T2, None|0|1|2^64-2|2^64-1} (0 and u64::MAX are genuine limits) and UpdateAdmin{G|G2} by governance G, the later/former governance G2 and a stranger X who is the contract's chain-level (wasm) admin; initial default gas limit None | 2 | 0; Migrate{None|0|3} at every state; cw20 transfers of T1 (by user A) and of T2 (by the governance account G itself, which becomes the former governance after UpdateAdmin), native transfers, and transfers of a BANK coin whose denom is literally \"cw20:<T2>\"; incoming packets redeeming them; error acks and timeouts that trigger refunds",
+            "reference {gov, allow: token -> limit, default} == Admin, Config.gov_contract, Config.default_gas_limit, fully paged ListAllowed, Allowed{T1}, Allowed{T2} after every step; Allow / UpdateAdmin accepted only from the reference governance; admin, allow list and default change in no other step (migrate may set, never unset, the default); a listed token never disappears, its limit never falls, unlimited stays unlimited (checked against the reference and, independently, pre vs. post listing); a cw20 transfer is accepted only if the token is listed or a default exists; every payout / refund sub-message dispatched by the contract carries gas_limit == allow[token] if listed (None if unlimited) else the default, native payouts carry none; a cw20 token that is listed or covered by a default stays redeemable: a returning voucher / error ack / timeout whose amount the channel balance covers issues a payout sub-call to the token",
         ),
         _ => ("", ""),
     }
